@@ -2,6 +2,7 @@ import Deb822Verif.Model.RelWrap
 import Deb822Verif.Lemmas.RelWrapOrder
 import Deb822Verif.Lemmas.RelCanonField
 import Deb822Verif.Lemmas.RelAccessField
+import Deb822Verif.Lemmas.SplitOn
 /-!
   Wrap-and-sort on the tree of a well-formed field (`RelSpec.FieldA`): the nodes it builds are the
   canonical-layout nodes of `RelSpec.canonRel`, so the accessor facts of C10 apply to them.
@@ -30,6 +31,15 @@ theorem join_cons (sep x : Str) (xs : List Str) :
   induction xs generalizing x with
   | nil => simp [Text.join]
   | cons y ys ih => simp [Text.join, ih y]
+
+theorem join_splitOn (sep : Char) (s : Str) : Text.join [sep] (Text.splitOn sep s) = s := by
+  have h := splitOn_flatten sep s
+  cases hs : Text.splitOn sep s with
+  | nil => rw [hs] at h; simp at h
+  | cons x xs =>
+    rw [hs] at h
+    rw [join_cons]
+    simpa using h
 
 /-- text of items joined by a separator -/
 theorem sepBy_text (sep : List RNode) (xs : List (List RNode)) :
@@ -90,25 +100,25 @@ theorem splitRev_join (body : Str) :
 
 /-- the value of a written version prints as a well-formed version text of the same value -/
 theorem value_valid (v : VersionA) (hv : v.ok = true) : validVersion v.value = true := by
-  obtain ⟨hb, he⟩ := (VersionA.ok_iff v).1 hv
+  obtain ⟨hb, hm, he⟩ := (VersionA.ok_iff v).1 hv
   rw [validVersion_iff]
-  have hbody : (versionAOf v.value).body = v.body := by
-    simp only [versionAOf, VersionA.value]; exact splitRev_join v.body
-  have hep : (versionAOf v.value).epoch = v.epoch.map fun e => (toString (digitsVal e)).toList := by
-    simp [versionAOf, VersionA.value, Option.map_map, Function.comp_def]
+  have hvA : versionAOf v.value = ⟨v.epoch.map fun e => (toString (digitsVal e)).toList, v.body⟩ := by
+    simp only [versionAOf, VersionA.value, VersionA.mk.injEq]
+    exact ⟨by simp [Option.map_map, Function.comp_def], splitRev_join v.body⟩
   constructor
-  · rw [VersionA.ok_iff, hbody, hep]
-    refine ⟨hb, ?_⟩
-    intro e' he'
+  · rw [hvA, VersionA.ok_iff]
     cases hve : v.epoch with
-    | none => simp [hve] at he'
+    | none =>
+      simp only [VersionA.first, VersionA.more, hve, Option.map_none] at hb hm ⊢
+      exact ⟨hb, by simp, by simp⟩
     | some e =>
-      simp only [hve, Option.map_some, Option.some.injEq] at he'
+      simp only [VersionA.first, VersionA.more, hve, Option.map_some] at hb hm ⊢
+      refine ⟨isIdent_of_digits (isDigits_toString _), hm, ?_⟩
+      intro e' he'
+      simp only [Option.some.injEq] at he'
       subst he'
       exact ⟨isDigits_toString _, by rw [digitsVal_toString]; exact (he e hve).2⟩
-  · have : (versionAOf v.value).value = ⟨(versionAOf v.value).epoch.map digitsVal,
-        (splitRev (versionAOf v.value).body).1, (splitRev (versionAOf v.value).body).2⟩ := rfl
-    rw [this, hbody, hep]
+  · rw [hvA]
     simp [VersionA.value, Option.map_map, Function.comp_def, digitsVal_toString, digitsVal_toDigits]
 
 theorem ident_head_ne_bang {s : Str} (h : isIdent s = true) : ∀ n, s ≠ '!' :: n := by
@@ -170,15 +180,6 @@ theorem view_valid (r : RelA) (hr : r.ok = true) : validR r.view = true := by
 theorem constraintToks_eq (c : VC) : constraintToks c = tks (opToks c) := by
   cases c <;> simp [constraintToks, VC.display, opToks, tks, tk]
 
-theorem splitOnce_append (sep : Char) (a b : Str) (h : sep ∉ a) :
-    splitOnce sep (a ++ sep :: b) = some (a, b) := by
-  induction a with
-  | nil => simp [splitOnce]
-  | cons c cs ih =>
-    have hc : c ≠ sep := fun e => h (by simp [e])
-    have hcs : sep ∉ cs := fun e => h (by simp [e])
-    simp [splitOnce, hc, ih hcs]
-
 theorem colon_not_digit : isAsciiDigit ':' = false := by decide
 
 theorem colon_notin_toString (n : Nat) : ':' ∉ (toString n).toList := by
@@ -188,19 +189,30 @@ theorem colon_notin_toString (n : Nat) : ':' ∉ (toString n).toList := by
   have := this.2 ':' h
   rw [colon_not_digit] at this; exact absurd this (by decide)
 
+/-- `IDENT first (COLON IDENT)*` as `version_tokens` writes it -/
+theorem sepBy_colon (p : Str) (ps : List Str) :
+    sepBy [.tok .COLON [':']] ((p :: ps).map fun q => [Node.tok .IDENT q])
+      = tks ((.IDENT, p) :: colonTail ps) := by
+  rw [List.map_cons, sepBy_cons]
+  induction ps with
+  | nil => simp [tk]
+  | cons q qs ih => simp [tk] at ih ⊢; exact ih
+
 theorem versionToks_eq (v : Version) : versionToks v = tks (versionAOf v).toks := by
   cases v with
   | mk epoch upstream revision =>
     cases epoch with
     | none =>
-      simp [versionToks, versionAOf, VersionA.toks, Version.display, tks, tk]
+      simp [versionToks, versionAOf, VersionA.toks, VersionA.first, VersionA.more, Version.display, tks, tk]
       cases revision <;> rfl
     | some e =>
-      have : splitOnce ':' (Version.display ⟨some e, upstream, revision⟩)
-          = some ((toString e).toList, upstream ++ (match revision with | some r => '-' :: r | none => [])) := by
+      have : Text.splitOn ':' (Version.display ⟨some e, upstream, revision⟩)
+          = (toString e).toList
+            :: Text.splitOn ':' (upstream ++ (match revision with | some r => '-' :: r | none => [])) := by
         simp only [Version.display, List.append_assoc]
-        exact splitOnce_append ':' _ _ (colon_notin_toString e)
-      simp [versionToks, this, versionAOf, VersionA.toks, tks, tk]
+        exact Text.splitOn_cons ':' _ _ (colon_notin_toString e)
+      simp only [versionToks, this, sepBy_colon]
+      simp [versionAOf, VersionA.toks, VersionA.first, VersionA.more]
       cases revision <;> rfl
 
 theorem archToks_eq (g : Gap) (a : Str) : tks (archItem g a).toks = tks (gapToks g) ++ archToks a := by
@@ -273,27 +285,12 @@ theorem acc_buildRel (r : RV) (h : validR r = true) : accRelation (buildRel r) =
 theorem constraintToks_text (c : VC) : textList (constraintToks c) = c.display := by
   cases c <;> simp [constraintToks, VC.display]
 
-theorem splitOnce_join {sep : Char} {s a b : Str} (h : splitOnce sep s = some (a, b)) :
-    a ++ sep :: b = s := by
-  induction s generalizing a b with
-  | nil => simp [splitOnce] at h
-  | cons c cs ih =>
-    unfold splitOnce at h
-    by_cases hc : c = sep
-    · simp only [hc, if_true, Option.some.injEq, Prod.mk.injEq] at h
-      obtain ⟨rfl, rfl⟩ := h; simp [hc]
-    · simp only [hc, if_false] at h
-      cases hs : splitOnce sep cs with
-      | none => simp [hs] at h
-      | some r =>
-        simp only [hs, Option.some.injEq, Prod.mk.injEq] at h
-        obtain ⟨rfl, rfl⟩ := h
-        simp [ih (a := r.1) (b := r.2) (by rw [hs])]
-
 theorem versionToks_text (v : Version) : textList (versionToks v) = v.display := by
   unfold versionToks
   split
-  · rename_i e rest _ hs; simpa using splitOnce_join hs
+  · rw [sepBy_text]
+    simp only [List.map_map, Function.comp_def, textList_cons, text_tok, textList_nil, List.append_nil]
+    simpa using join_splitOn ':' v.display
   · simp
 
 theorem archToks_text (a : Str) : textList (archToks a) = a := by
